@@ -138,8 +138,10 @@ def break_ref(g, form):
     if not tgt or tgt[0][0]["k"] != "q":
         return None
     # add a second question with the same name in another (new) group
-    form["nodes"].append({"k": "g", "c": {"name": "dupgrp" + str(g.integer(100, 999)), "label": "D"},
-                          "ch": [{"k": "q", "c": {"type": "text", "name": name, "label": "dup"}}]})
+    # 1..4 more elements carry the name, each in a section of its own
+    for i in range(g.pick([1, 1, 2, 2, 3, 4])):
+        form["nodes"].append({"k": "g", "c": {"name": f"dupgrp{i}_" + str(g.integer(100, 999)), "label": "D"},
+                              "ch": [{"k": "q", "c": {"type": "text", "name": name, "label": "dup"}}]})
     return {"mode": "ambiguous", "name": name}
 
 
